@@ -267,6 +267,25 @@ def rule_unfiltered(ctx, rid, A):
     else:
         ctx.violation(rid, fi, c, 'the default of phase_step is %s' % (unparse(d)[:40] if d is not None else 'missing'),
                       expected='1.5 * np.pi')
+    # the cycle container detects cycles with the same default threshold (sibling defaults agree)
+    try:
+        f2 = A.P.func('emd.cycles.Cycles.__init__')
+    except Exception:
+        f2 = None
+    if f2 is not None and 'phase_step' in f2.defaults:
+        c = 'the cycle container has the same default wrap threshold'
+        d2 = f2.defaults['phase_step']
+        try:
+            t2 = Evaluator(A.P)._ev(d2, State(), f2.module, f2, 0)[0][0]
+            ok2 = alg.poly(t2) == alg.poly(('bin', '*', C(1.5), ('ref', 'numpy.pi')))
+        except Exception:
+            ok2 = False
+        if ok2:
+            ctx.passed(rid, f2, c)
+        else:
+            ctx.violation(rid, f2, c, 'Cycles(phase_step=%s) by default, get_cycle_vector uses 1.5 * pi: the container '
+                          'partitions the same phase differently from the documented labelling' % unparse(d2)[:40],
+                          expected='1.5 * np.pi')
 
 
 def _is_affine_N(A, p):
